@@ -131,6 +131,7 @@ Principal(fn) ==
       order == Dedup(VarsSeq(ps) \o Vars(r), {})
   IN [ok |-> u.ok,
       ntparams |-> Len(order),
+      resonly |-> Cardinality(VarSet(r) \ UNION {VarSet(ps[i]) : i \in 1..Len(ps)}),        \* type variables that only the result mentions
       params |-> [i \in 1..Len(ps) |-> GoText(Rename(order, ps[i]))],
       res |-> GoText(Rename(order, r)),
       \* which parameters are fully determined by the body (an annotation with that type is redundant), and the type to write
